@@ -10,6 +10,7 @@ import (
 	"fmt"
 	"runtime/debug"
 	"sort"
+	"strconv"
 	"strings"
 	"sync"
 	"testing"
@@ -18,6 +19,7 @@ import (
 	"github.com/miekg/dns"
 	"verifsim/core"
 	"verifsim/gen"
+	"verifsim/kernel"
 	"verifsim/oracle"
 	"verifsim/props/common"
 )
@@ -33,6 +35,7 @@ type Delivery struct {
 
 type Scenario struct {
 	RunSeed    uint64     `json:"run_seed"`
+	Parallel   int        `json:"parallel,omitempty"` // >0: that many signer/verifier pairs work concurrently, each with its own key (Deliveries are ignored)
 	Msg        gen.Recipe `json:"msg"`
 	Key        int        `json:"key"`
 	EpochS     int        `json:"epoch_s"`    // bubble is slept forward by this much first
@@ -68,10 +71,13 @@ func Gen(seed uint64, tier string) any {
 		sc.Msg.Pad = core.Pick(r, 100, 1000, 20000, 60000)
 	}
 	sc.Key = r.IntN(len(gen.KeyText))
+	if core.Chance(r, 8) {
+		sc.Parallel = 2 + r.IntN(3)
+	}
 	sc.EpochS = core.Pick(r, 0, 1, 86400*365, 86400*365*20)
 	sc.InceptOff = core.Pick(r, 0, -300, 300, -1, 1, -86400)
-	sc.ValidFor = core.Pick(r, 600, 600, 2, 1, 0, 86400*30)
-	if sc.InceptOff+sc.ValidFor < 0 {
+	sc.ValidFor = core.Pick(r, 600, 600, 2, 1, 0, 86400*30, -1, -300) // negative: expiration before inception, nothing is ever inside
+	if sc.ValidFor >= 0 && sc.InceptOff+sc.ValidFor < 0 {
 		sc.ValidFor = 86400 * 30 // keep most windows reachable from the signing instant
 	}
 	nd := 1 + r.IntN(6)
@@ -79,8 +85,12 @@ func Gen(seed uint64, tier string) any {
 		d := Delivery{Fault: "none", Time: "mid"}
 		switch x := r.IntN(100); {
 		case x < 25:
-			d.Time = core.Pick(r, "before", "incept", "expire", "after", "at")
-			d.At = r.IntN(sc.ValidFor + 1)
+			d.Time = core.Pick(r, "before", "incept", "expire", "after", "at", "later")
+			d.At = r.IntN(max(sc.ValidFor, 0) + 1)
+			if d.Time == "later" {
+				// well outside, at distances where truncated or modular arithmetic would fold back into the window
+				d.At = core.Pick(r, 65536, 65536*2, 1<<24, 86400*365) + r.IntN(max(sc.ValidFor, 0)+2)
+			}
 		case x < 60:
 			d.Fault, d.Region, d.Frac, d.Bit = "flip", core.Pick(r, regions...), r.IntN(1000), r.IntN(8)
 		case x < 80:
@@ -201,6 +211,10 @@ func Run(t *testing.T, scAny any, verbose bool) *core.Result {
 	sc := scAny.(*Scenario)
 	keysOnce.Do(loadKeys)
 	res := &core.Result{Seed: sc.RunSeed, Verdict: core.OK, Stats: map[string]int{}}
+	if sc.Parallel > 0 {
+		common.Bubble(t, func() { runParallel(sc, res, verbose) })
+		return res
+	}
 	common.Bubble(t, func() { runIn(sc, res, verbose) })
 	return res
 }
@@ -324,6 +338,8 @@ func runIn(sc *Scenario, res *core.Result, verbose bool) {
 			at = int64(expire) + 1
 		case "at":
 			at = int64(incept) + int64(d.At)
+		case "later":
+			at = int64(incept) + int64(d.At)
 		default:
 			at = int64(incept) + int64(sc.ValidFor)/2
 		}
@@ -442,6 +458,99 @@ func runIn(sc *Scenario, res *core.Result, verbose bool) {
 	res.Class = fmt.Sprintf("%s/c=%v/n=%d", algName, sc.Msg.Compress, len(plan))
 }
 
+// --- several signers and verifiers at once (each pair has its own key and
+// message): no result may depend on what the others do, and under the race
+// build no state may be shared between them.
+
+type pairTask struct {
+	k   *kernel.K
+	res *core.Result
+	sc  *Scenario
+	idx int
+	fin *int
+}
+
+//go:norace
+func (p *pairTask) RunEvent(time.Time) {
+	k := p.k
+	kp := keys[(p.sc.Key+2*p.idx)%len(keys)]
+	for round := 0; round < 2; round++ {
+		rc := p.sc.Msg
+		rc.ID += uint16(p.idx*16 + round)
+		m := rc.Build()
+		now := uint32(time.Now().Unix())
+		sig := &dns.SIG{}
+		sig.Algorithm, sig.KeyTag, sig.SignerName = kp.key.Algorithm, kp.key.KeyTag(), kp.key.Hdr.Name
+		sig.Inception, sig.Expiration = now-300, now+300
+		k.Yield("pair.sign", p.idx)
+		signed, err := sig.Sign(kp.priv, m)
+		k.Yield("pair.verify", p.idx)
+		var verr error
+		pan := ""
+		if err == nil {
+			um := new(dns.Msg)
+			vrr := sig
+			if um.Unpack(append([]byte(nil), signed...)) == nil && len(um.Extra) > 0 {
+				if s, ok := um.Extra[len(um.Extra)-1].(*dns.SIG); ok {
+					vrr = s
+				}
+			}
+			verr, pan = verify(vrr, kp.key, signed)
+		}
+		k.Lock()
+		p.res.Stats["oracle.Q2_verifies_concurrently"]++
+		switch {
+		case err != nil && len(signed) == 0:
+			if b, perr := m.Pack(); perr == nil && len(b) < 60000 {
+				p.res.Fail("Q1", "sign-failed-concurrent:"+err.Error(), "SIG.Sign failed while other signers were active: %v", err)
+			}
+		case pan != "":
+			p.res.Fail("Q4", "verify-panic-concurrent", "SIG.Verify panicked while other verifiers were active: %s", pan)
+		case verr != nil:
+			p.res.Fail("Q2", "verify-failed-concurrent", "a message signed and verified by pair %d did not verify while %d other pairs were active: %v", p.idx, p.sc.Parallel-1, verr)
+		}
+		k.Unlock()
+	}
+	k.Lock()
+	*p.fin++
+	k.Unlock()
+}
+
+type pairsDone struct {
+	fin *int
+	n   int
+}
+
+//go:norace
+func (d pairsDone) Check(time.Time) string {
+	if *d.fin == d.n {
+		return "done"
+	}
+	return ""
+}
+
+//go:norace
+func runParallel(sc *Scenario, res *core.Result, verbose bool) {
+	k := kernel.New(kernel.Config{Seed: sc.RunSeed, Strategy: int(sc.RunSeed % kernel.NumStrats), PCTDepth: 2, PCTSpan: 30, Verbose: verbose, MaxSteps: 5000})
+	kernel.SetCurrent(k)
+	defer kernel.SetCurrent(nil)
+	fin := 0
+	for i := 0; i < sc.Parallel; i++ {
+		k.Go("pair"+strconv.Itoa(i), &pairTask{k: k, res: res, sc: sc, idx: i, fin: &fin})
+	}
+	out := k.Run(pairsDone{&fin, sc.Parallel})
+	res.Steps, res.Digest = k.Steps, k.Digest()
+	if verbose {
+		res.Log = k.Log
+	}
+	k.Abort()
+	if out != kernel.Finished && res.Verdict == core.OK {
+		res.Verdict, res.Msg = core.Harness, "parallel SIG(0) run ended with "+out
+	}
+	res.Nontrivial = true
+	res.Class = "parallel/n=" + strconv.Itoa(sc.Parallel) + "/" + dns.AlgorithmToString[keys[sc.Key%len(keys)].key.Algorithm]
+}
+
 func firstLine(s string) string {
 	if i := strings.IndexByte(s, '\n'); i > 0 {
 		return s[:i]
@@ -472,5 +581,5 @@ func trimStack(s string) string {
 }
 
 func init() {
-	core.Register(&core.Prop{ID: "C18", Gen: Gen, Decode: Decode, Run: Run, Shrink: Shrink, Modes: []string{"pristine"}})
+	core.Register(&core.Prop{ID: "C18", Gen: Gen, Decode: Decode, Run: Run, Shrink: Shrink, Modes: []string{"pristine"}, Race: true})
 }
